@@ -15,17 +15,21 @@
 EXTENDS Integers, Sequences, FiniteSets, TLC, Json
 
 VARIABLES idx,      \* events consumed
-          serial,   \* q -> [cls, dig] of the evaluation of q alone
+          nserial,  \* number of serial events consumed: query q was evaluated alone by event q + 1
           running,  \* runs in flight: run -> q
           maxc,     \* largest number of evaluations in flight at once
           bad       \* first event that breaks the law ("" if none)
 
-vars == <<idx, serial, running, maxc, bad>>
+vars == <<idx, nserial, running, maxc, bad>>
 
 Trace == ndJsonDeserialize("trace.ndjson")
 N == Len(Trace)
 
-Init == idx = 0 /\ serial = <<>> /\ running = <<>> /\ maxc = 0 /\ bad = ""
+Init == idx = 0 /\ nserial = 0 /\ running = <<>> /\ maxc = 0 /\ bad = ""
+
+\* the evaluation of q alone (the harness records the serial pass first, in the order of the ids)
+Known(q) == q < nserial
+SerialOf(q) == Trace[q + 1]
 
 Put(f, k, v) == [x \in DOMAIN f \cup {k} |-> IF x = k THEN v ELSE f[x]]
 Drop(f, k) == [x \in DOMAIN f \ {k} |-> f[x]]
@@ -37,23 +41,24 @@ Step ==
   /\ idx' = idx + 1
   /\ LET ev == Trace[idx + 1] IN
      CASE ev.e = "serial" ->
-            /\ serial' = Put(serial, ev.q, [cls |-> ev.cls, dig |-> ev.dig])
-            /\ bad' = IF bad = "" /\ (running # <<>> \/ ~OkClass(ev.cls)) THEN "serial:" \o ToString(ev.q) ELSE bad
+            /\ nserial' = nserial + 1
+            /\ bad' = IF bad = "" /\ (running # <<>> \/ ~OkClass(ev.cls) \/ ev.q # nserial \/ idx # nserial)
+                        THEN "serial:" \o ToString(ev.q) ELSE bad
             /\ UNCHANGED <<running, maxc>>
        [] ev.e = "start" ->
             /\ running' = Put(running, ev.run, ev.q)
             /\ maxc' = Max(maxc, Cardinality(DOMAIN running) + 1)
-            /\ bad' = IF bad = "" /\ (ev.run \in DOMAIN running \/ ev.q \notin DOMAIN serial)
+            /\ bad' = IF bad = "" /\ (ev.run \in DOMAIN running \/ ~Known(ev.q))
                         THEN "start:" \o ToString(ev.run) ELSE bad
-            /\ UNCHANGED serial
+            /\ UNCHANGED nserial
        [] ev.e = "end" ->
             /\ running' = Drop(running, ev.run)
             /\ bad' = IF bad # "" THEN bad
-                      ELSE IF ev.run \notin DOMAIN running \/ ev.q \notin DOMAIN serial THEN "end-unknown:" \o ToString(ev.run)
+                      ELSE IF ev.run \notin DOMAIN running \/ ~Known(ev.q) THEN "end-unknown:" \o ToString(ev.run)
                       ELSE IF ~OkClass(ev.cls) THEN "internal:" \o ToString(ev.q)
-                      ELSE IF ev.cls # serial[ev.q].cls \/ ev.dig # serial[ev.q].dig THEN "dependent:" \o ToString(ev.q)
+                      ELSE IF ev.cls # SerialOf(ev.q).cls \/ ev.dig # SerialOf(ev.q).dig THEN "dependent:" \o ToString(ev.q)
                       ELSE ""
-            /\ UNCHANGED <<serial, maxc>>
+            /\ UNCHANGED <<nserial, maxc>>
 
 Next == Step
 Spec == Init /\ [][Next]_vars
